@@ -368,6 +368,8 @@ v('C04', 'revert-F48-c-gmtime', LIB, '\tdays = (int64_t)unix_second / 86400;\n',
 v("C08", "revert-F52-channel-glob-unescaped", RF, "                    os.path.join(glob.escape(top_level_dir), list_drf.GLOB_DRFPROPFILE)\n", "                    os.path.join(top_level_dir, list_drf.GLOB_DRFPROPFILE)\n", rules=["C08.R9"])
 v("C08", "revert-F54-metadata-glob-unescaped", DM, "                                glob.escape(metadata_dir), list_drf.GLOB_DMDPROPFILE\n", "                                metadata_dir, list_drf.GLOB_DMDPROPFILE\n", rules=["C08.R9"])
 v("C02", "revert-F53-directory-length-unchecked", LIB, "\tif (strlen(directory) + 1 + 19 + 1 + 7 + 20 + 7 + 1 > BIG_HDF5_STR)\n", "\tif (0)\n", rules=["C02.R8"])
+v("C20", "rf-reader-opts-into-deleting-metadata-reader", RF, "                reader = digital_metadata.DigitalMetadataReader(metadata_dir)\n", "                reader = digital_metadata.DigitalMetadataReader(metadata_dir, accept_empty=False)\n", rules=["C20.R8"])
+v("C20", "twin-accept-empty-spelled-out", RF, "                reader = digital_metadata.DigitalMetadataReader(metadata_dir)\n", "                reader = digital_metadata.DigitalMetadataReader(metadata_dir, accept_empty=True)\n", expect="silent")
 
 def for_property(prop):
     return [x for x in V if prop in x["props"]]
